@@ -116,6 +116,8 @@ X("x_blend_public_api", "Frame::image on two-layer sprites == Aseprite reference
 X("x_determinism", "same bytes -> same observations; repeated / reordered / 16-thread concurrent calls agree", ["file::*"], mod="x_misc", bound="40 / 400 seeded models + 10 / all small corpus files")
 X("x_utils", "extrude_border clamps; PaletteMapper.lookup / to_indexed_image as documented", ["util::extrude_border", "util::PaletteMapper::new", "util::PaletteMapper::lookup", "util::to_indexed_image"], mod="x_misc",
   bound="all sizes 1..8^2 + 30 / 300 seeded up to 64x64; 200 / 2000 seeded palettes")
+X("x_cels_table", "CelsData: add_cel Ok iff frame exists and slot free; cel() returns what was stored; frame_cels(f) yields the stored cels of the frame in increasing layer index, each with its layer id (the executed check behind the trusted Verus shim of frame_cels)",
+  ["cel::CelsData::new", "cel::CelsData::add_cel", "cel::CelsData::cel", "cel::CelsData::frame_cels"], mod="x_misc", bound="784 cases: two insertions, frame ids in {0,1,2,3,255,256,65535}, layer indices 0..=3")
 X("x_decoder_contracts", "every chunk decoder satisfies its contract (Ok iff layout/enums/UTF-8 valid; every stored attribute == layout read, file order) on generated payloads",
   ["layer::parse_chunk", "tags::parse_chunk", "slice::parse_chunk", "palette::parse_chunk", "palette::parse_old_chunk_04", "palette::parse_old_chunk_11", "external_file::ExternalFile::parse_chunk",
    "tileset::Tileset::parse_chunk", "user_data::parse_userdata_chunk", "color_profile::parse_chunk", "cel::parse_chunk"], mod="x_decoders",
@@ -194,6 +196,12 @@ V("v_from_vec", "parents", "LayersData::from_vec establishes compute_parents' pr
   ["layer::LayersData::from_vec"], fn="from_vec", witness="x_total_load")
 V("v_write_raw_cel", "raster_raw", "write_raw_cel_to_image, unbounded sizes and all i16 offsets: canvas size unchanged; every canvas pixel inside the cel rectangle == blend(mode, old pixel, pixels[(Y-y0)*w+(X-x0)], round8(layer opacity, cel opacity)), every other pixel unchanged; no index out of bounds, no overflow",
   ["file::write_raw_cel_to_image"], fn="write_raw_cel_to_image", witness="x_frames_vs_spec")
+V("v_frame_image", "compose", "AsepriteFile::frame_image(frame), for EVERY validated sprite (any number of layers / cels, unbounded sizes): canvas = sprite size; every pixel == the fold, over the cels of that frame in increasing layer order starting from transparent black, of 'cel over backdrop', where cels whose layer is hidden directly or through an ancestor are skipped (C02 composition order, C09 visibility gate); no accessor precondition can fail",
+  ["file::AsepriteFile::frame_image", "file::AsepriteFile::layer", "file::AsepriteFile::num_layers"], fn="frame_image", witness="x_frames_vs_spec")
+V("v_write_cel", "compose", "AsepriteFile::write_cel under R-pre (what validation establishes for a cel): the panic!/expect sites 'should have been caught by validate' are unreachable; raw cel -> write_raw_cel_to_image with the blend mode and opacity of the cel's own layer; tilemap cel -> write_tilemap_cel_to_image with the layer's tileset and its pixels; linked cel -> exactly what the cel it links to (same layer, linked frame) draws; canvas size unchanged; the single recursion terminates",
+  ["file::AsepriteFile::write_cel", "layer::Layer::data", "layer::Layer::blend_mode", "layer::Layer::opacity", "layer::Layer::layer_type", "file::AsepriteFile::tilesets", "cel::CelsData::cel"], fn="write_cel", witness="x_usable_after_load")
+V("v_layer_image", "compose", "AsepriteFile::layer_image(cel id) (== Cel::image): sprite-sized canvas showing exactly that cel over transparent black, blank if the slot is empty; the same write_cel as frame compositing (C19)",
+  ["file::AsepriteFile::layer_image"], fn="layer_image", witness="x_routes")
 V("v_tilemap_tile", "tilemap", "TilemapData::tile(x,y) == Some(tiles[y*w+x]) iff x<w && y<h (given tiles.len()==w*h), for all u16 coordinates",
   ["tilemap::TilemapData::tile", "tilemap::TilemapData::width", "tilemap::TilemapData::height"], fn="tile", witness="x_tilemap_views")
 V("v_tile_slice", "tilemap", "tile_slice(pixels, size, id) == pixels[id*area .. (id+1)*area] under (id+1)*area <= len; no overflow", ["file::tile_slice"], fn="tile_slice", witness="x_tilemap_views")
@@ -322,14 +330,14 @@ prop("C01", "proof", ["v_dec_layer", "v_dec_layer_type", "v_dec_blend_mode", "v_
      + ["k_parse_chunk_type", "k_parse_pixel_format", "k_check_chunk_bytes", "k_pixel_format_accessors"] + READER + LAYER_DEC + TAGS_DEC + SLICE_DEC
      + ["k_palette_chunk_20", "k_palette_chunk_26", "k_palette_chunk_35"] + EXT_DEC + TS_DEC + ["v_read_aseprite", "v_parse_pixel_format", "v_parse_frame", "v_num_frames", "v_num_layers", "v_file_layer", "v_file_frame", "x_decoder_contracts", "x_roundtrip_structure", "x_header_extremes"],
      "Chunk decoders (layer, tags, external files, palette, tileset header, slice keys) are Verus contracts on the real text for EVERY payload length and entity count, field by field against the file-format layout, modulo the reader-primitive contract; the reader primitives and the enum decoders are Kani contracts (enums over their whole domain, primitives and a few decoder shapes on fixed payload sizes with symbolic contents). The composition (header, frame dispatch, accessors) cannot be executed symbolically by Kani nor extracted for Verus and is a bounded stand-in (x_*).")
-prop("C02", "proof", ["v_celsdata_add_cel", "v_celsdata_cel", "v_write_raw_cel", "v_write_tilemap_cel", "v_tile_slice", "v_tilemap_tile", "v_is_visible", "k_mul_un8", "k_cels_table", "x_mode_table", "x_frames_vs_spec", "x_cel_order_irrelevant", "x_blend_public_api"],
+prop("C02", "proof", ["v_frame_image", "v_write_cel", "x_cels_table", "x_forest_exhaustive", "v_celsdata_add_cel", "v_celsdata_cel", "v_write_raw_cel", "v_write_tilemap_cel", "v_tile_slice", "v_tilemap_tile", "v_is_visible", "k_mul_un8", "k_cels_table", "x_mode_table", "x_frames_vs_spec", "x_cel_order_irrelevant", "x_blend_public_api"],
      "The raw-cel rasteriser is proved FUNCTIONALLY correct by Verus for unbounded sizes (placement, clipping, row-major index, opacity product, blend call). mul_un8 == round8 and the cel table's storage-order independence are Kani contracts. frame_image / write_cel / is_visible glue and the dispatch table (Kani ICE, no dyn in Verus) are bounded stand-ins.")
 prop("C03", "proof", BLEND_LEAVES + BLEND_WRAPPERS + ["k_parse_blend_mode", "x_mode_table", "x_soft_light", "x_hsl_kernels", "x_blend_public_api"],
      "14 integer modes: leaves == Aseprite macros over their full domains, normal/merge == reference over all 2^72 inputs, every mode function == RGBA_BLENDER_N structure modulo callees (uninterpreted-function abstraction). soft light and the four HSL modes: integer skeleton proved, f64 kernels bounded-exec (soft light exhaustive over 65536 pairs).")
 prop("C04", "proof", VDEC_IDS + ["v_compute_parents", "v_from_vec", "k_check_chunk_bytes", "k_scale_6bit", "k_parse_chunk_type", "k_parse_pixel_format"] + LAYER_DEC + TAGS_DEC + SLICE_DEC + PAL_DEC + EXT_DEC
      + TS_DEC + CEL_DEC + UD_DEC + CP_DEC + READER + ["k_tilemap_bits", "k_tile_parse", "k_cels_table", "v_read_aseprite", "v_parse_frame", "v_ud_set_tag_user_data", "v_ud_add_user_data", "v_ud_add_cel", "v_cel_mut", "x_decoder_contracts", "x_total_load"],
      "Totality contracts: every Kani decoder harness also discharges the automatic no-panic / no-overflow / in-bounds checks for all contents of its payload size; Verus proves compute_parents and that from_vec establishes its precondition. Whole-load totality (glue, zlib, stack depth, allocation) is fault enumeration in an isolated child process.", level_note_extra="fault enumeration for the composition")
-prop("C05", "proof", ["v_validate_indexed", "v_rawpixels_validate", "v_indexed_as_rgba", "v_dec_tilemap", "v_dec_tileset", "v_write_raw_cel", "v_write_tilemap_cel", "v_tile_slice", "v_tilemap_tile", "v_tilemap_lookup", "v_tile_offsets", "v_is_visible", "v_pixels_per_tile", "k_validate_indexed", "k_indexed_as_rgba", "k_tileset_head_34", "k_tileset_head_44", "x_usable_after_load"],
+prop("C05", "proof", ["v_write_cel", "v_frame_image", "v_layer_image", "v_validate_indexed", "v_rawpixels_validate", "v_indexed_as_rgba", "v_dec_tilemap", "v_dec_tileset", "v_write_raw_cel", "v_write_tilemap_cel", "v_tile_slice", "v_tilemap_tile", "v_tilemap_lookup", "v_tile_offsets", "v_is_visible", "v_pixels_per_tile", "k_validate_indexed", "k_indexed_as_rgba", "k_tileset_head_34", "k_tileset_head_44", "x_usable_after_load"],
      "Assume/guarantee: the renderers are proved panic-free under explicit preconditions R-pre (Verus, unbounded); that validation establishes R-pre for everything that loads is checked by fault enumeration: every loadable corrupted file is driven through every accessor.")
 prop("C06", "proof", ["v_indexed_as_rgba", "v_gray_into_rgba", "v_is_background", "v_rawpixels_validate", "v_dec_cel", "v_dec_cel_content", "v_dec_cel_common", "v_dec_image_size", "v_pixel_count", "v_cel_is_empty", "v_cel_frame", "v_cel_layer", "v_celsdata_cel"] + PIX + ["k_cel_chunk_15", "k_cel_chunk_17", "k_cel_chunk_18", "k_cel_raw_rgba_28", "k_cel_raw_gray_24", "k_cel_raw_indexed_23", "v_write_raw_cel", "x_frames_vs_spec", "x_roundtrip_structure", "x_neutral_encodings"],
      "Pixel conversions proved for all values; cel header / raw payload decode on fixed sizes; placement + alpha scaling is the Verus rasteriser contract; zlib storage, linked cels and the transparent-index rule end-to-end are bounded-exec against the composition spec.")
@@ -337,7 +345,7 @@ prop("C07", "exploration", ["v_read_aseprite", "v_parse_frame", "v_celsdata_add_
      "Mostly glue and zlib: bounded exploration over seeded models x ~30 encoding choices; contract part: ignorable chunk codes map to the three ignorable kinds (all u16), trailing payload bytes do not change a decoder's result (layer / tileset shapes with slack bytes).")
 prop("C08", "proof", ["v_write_tilemap_cel", "v_dec_tilemap", "v_dec_bitmask", "v_dec_tileset", "k_tile_parse", "k_tile_bitmask_header", "k_tilemap_bits", "k_pixels_per_tile", "v_tilemap_tile", "v_tilemap_lookup", "v_tile_offsets", "v_tile_slice", "v_pixels_per_tile", "v_write_tilemap_cel", "x_tilemap_views"],
      "Tile word decode, tile lookup and tile slicing are contracts over unbounded sizes; the Tilemap / Tileset views need a loaded sprite and are compared with each other and with the model on seeded sprites.")
-prop("C09", "proof", ["v_compute_parents", "v_from_vec", "v_is_visible", "x_forest_exhaustive"],
+prop("C09", "proof", ["v_compute_parents", "v_from_vec", "v_is_visible", "v_frame_image", "x_forest_exhaustive"],
      "compute_parents is proved by Verus on the real text for ALL layer sequences (any length, any depth) whose first level is 0 - the forests of the property are a subset; from_vec establishes that precondition; Layer::is_visible is proved equal to 'own flag and all ancestors' flags' for every table satisfying the parent contract. Layer::parent and the compositing gate are exhaustively executed for every forest of up to 6 (quick) / 8 (thorough) layers and every flag assignment.")
 prop("C10", "proof", UD_V + ["v_dec_userdata"] + UD_DEC + ["x_decoder_contracts", "x_userdata_exhaustive", "x_roundtrip_structure"],
      "The attachment rule is a Verus contract on the REAL code, extracted each run, for unbounded tables and chunk sequences: ParseInfo::add_user_data attaches a record to the entity named by the current context and changes nothing else (add_layer / add_cel / add_tags / add_slice / set_tag_user_data / CelsData::cel_mut likewise), and parse_frame - the chunk dispatch - updates that context per chunk kind exactly by the rule (fold over the chunk sequence; ignorable chunks and the new palette leave it untouched, tags only count in frame 0, a legacy palette selects the sprite). Assumed in that unit: the decoders' results (their own contracts are the dec_* units) and the chunk framing. The same rule is additionally executed for all admissible chunk sequences up to length 5 / 6 through the public API; the user-data chunk decoder is a Verus (unbounded) and Kani (fixed shapes) contract.")
@@ -355,4 +363,4 @@ prop("C17", "proof", ["k_mul_un8", "k_blend8", "k_merge", "k_normal_alpha", "k_p
      + ["k_ch_" + m for m in ["multiply", "screen", "overlay", "darken", "lighten", "color_dodge", "color_burn", "hard_light", "difference", "exclusion", "divide"]] + ["k_mode_addition", "k_mode_subtract", "x_hsl_kernels", "x_blend_public_api", "v_write_raw_cel", "v_write_tilemap_cel"],
      "Observation point Frame::image: both rasterisers are proved (Verus, real text) to hand every source pixel to the blend function with the opacity product round8(layer, cel) and to write its result unchanged, so the laws of the blend functions carry over to frame images. The three laws are proved for all 19 modes (HSL included: alpha never flows through f64) from the contracts of normal / merge with every other callee uninterpreted. Range clause: integer modes via the leaf contracts (reference value in 0..=255 and equal to the truncated result) and normal's full-domain safety; soft light range proved; HSL packed range only bounded-exec.")
 prop("C18", "exploration", ["x_utils"], "util.rs uses iterator chains and IntMap; bounded-exec on all sizes 1..8 x 1..8 plus seeded sizes and palettes.")
-prop("C19", "proof", ROUTES_V + ["x_routes", "x_frames_vs_spec"], "The three routes (AsepriteFile::cel, Frame::layer, Layer::frame) and the cel accessors frame / layer / is_empty are Verus contracts on the real text: all three construct the cel id (frame, layer) of the same file, so coordinates and emptiness agree by construction (swapped arguments fail the postcondition). Offset, user data and images go through the cel table and the renderer: compared on seeded sprites with frames != layers; single-visible-layer frame == cel image and tilemap image == cel image are bounded-exec.")
+prop("C19", "proof", ROUTES_V + ["v_layer_image", "v_write_cel", "v_frame_image", "x_cels_table", "x_routes", "x_frames_vs_spec"], "The three routes (AsepriteFile::cel, Frame::layer, Layer::frame) and the cel accessors frame / layer / is_empty are Verus contracts on the real text: all three construct the cel id (frame, layer) of the same file, so coordinates and emptiness agree by construction (swapped arguments fail the postcondition). Offset, user data and images go through the cel table and the renderer: compared on seeded sprites with frames != layers; single-visible-layer frame == cel image and tilemap image == cel image are bounded-exec.")
